@@ -89,7 +89,8 @@ def w1(facts, tier):
         else:
             envd, ok, word, lw, lr = worst
             st = "violation" if ok is False else "undecided"
-            if any(isinstance(x, tuple) and x[0] == "RAW?" for x in rx.symbols(lw) | rx.symbols(lr)):
+            if word and any(isinstance(x, tuple) and x[0] in ("BULK", "RAW1") for x in word) and \
+                    any(isinstance(x, tuple) and x[0] == "BYTES" for x in rx.symbols(lr)):
                 st = "undecided"   # a raw slice whose length expression the classifier cannot attribute to a type
             yield ob(["C01", "C07"], "W1", key, st, where(wf),
                      f"writer {wf['id']} can emit [{rx.show_word(word)}] which reader {rf['id']} does not consume "
